@@ -34,11 +34,31 @@ pub struct CaseOut {
     pub circuit_panicked: bool,
 }
 
+/// `p2`: the Poseidon2 MMCS of p3_test_utils; `p1`: the same tree shape over the Poseidon1
+/// permutation (native hash / compression types defined here, Poseidon1 table in the circuit).
+macro_rules! mmcs_flavor_types {
+    (p2) => {};
+    (p1) => {
+        type Perm1 = p3_koala_bear::Poseidon1KoalaBear<16>;
+        type MyHash = p3_symmetric::PaddingFreeSponge<Perm1, 16, 8, 8>;
+        type MyCompress = p3_symmetric::TruncatedPermutation<Perm1, 2, 8, 16>;
+        type MyMmcs = p3_merkle_tree::MerkleTreeMmcs<<F as p3_field::Field>::Packing, <F as p3_field::Field>::Packing, MyHash, MyCompress, 2, 8>;
+    };
+}
+macro_rules! mmcs_flavor_enable {
+    (p2, $b:ident, $pp:ty, $perm:ident) => {
+        $b.enable_poseidon2_perm::<$pp, _>(p3_circuit::ops::generate_poseidon2_trace::<CF, $pp>, $perm.clone());
+    };
+    (p1, $b:ident, $pp:ty, $perm:ident) => {
+        $b.enable_poseidon1_perm::<$pp, _>(p3_circuit::ops::generate_poseidon1_trace::<CF, $pp>, $perm.clone());
+    };
+}
+
 macro_rules! mmcs_universe {
-    ($fname:ident, $params:ident, $p2params:ty, $p2cfg:expr, $defperm:path) => {
+    ($fname:ident, $flavor:ident, $params:ident, $p2params:ty, $p2cfg:expr, $defperm:path) => {
         pub mod $fname {
             use p3_circuit::CircuitBuilder;
-            use p3_circuit::ops::{generate_poseidon2_trace, generate_recompose_trace, perm_private_data};
+            use p3_circuit::ops::{generate_recompose_trace, perm_private_data};
             use p3_commit::{BatchOpeningRef, Mmcs};
             use p3_field::{BasedVectorSpace, PrimeCharacteristicRing};
             use p3_matrix::Matrix;
@@ -51,6 +71,7 @@ macro_rules! mmcs_universe {
             use crate::core::pool::observe;
 
             type CF = Challenge;
+            mmcs_flavor_types!($flavor);
 
             fn mats(shape: &MmcsShape) -> Vec<RowMajorMatrix<F>> {
                 let mut rng = crate::core::prng::Rng::new(shape.seed, "mmcs-mats", 0);
@@ -95,7 +116,7 @@ macro_rules! mmcs_universe {
                 let opening = mmcs.open_batch(index, &pd);
                 let roots: Vec<[F; DIGEST_ELEMS]> = commit.roots().to_vec();
                 let mut b = CircuitBuilder::<CF>::new();
-                b.enable_poseidon2_perm::<$p2params, _>(generate_poseidon2_trace::<CF, $p2params>, perm.clone());
+                mmcs_flavor_enable!($flavor, b, $p2params, perm);
                 b.enable_recompose::<F>(generate_recompose_trace::<F, CF>);
                 let openings: Vec<Vec<_>> = opening.opened_values.iter().map(|o| (0..o.len()).map(|_| b.public_input()).collect()).collect();
                 let dirs = b.alloc_public_inputs(log_max, "directions");
@@ -180,7 +201,7 @@ macro_rules! mmcs_universe {
                 // in-circuit
                 let built = observe(|| {
                     let mut b = CircuitBuilder::<CF>::new();
-                    b.enable_poseidon2_perm::<$p2params, _>(generate_poseidon2_trace::<CF, $p2params>, perm.clone());
+                    mmcs_flavor_enable!($flavor, b, $p2params, perm);
                     b.enable_recompose::<F>(generate_recompose_trace::<F, CF>);
                     let openings: Vec<Vec<_>> = values.iter().map(|o| (0..o.len()).map(|_| b.public_input()).collect()).collect();
                     let dirs = b.alloc_public_inputs(log_max, "directions");
@@ -222,8 +243,9 @@ macro_rules! mmcs_universe {
         }
     };
 }
-mmcs_universe!(kb4, koala_bear_params, p3_poseidon2_circuit_air::KoalaBearD4Width16, p3_circuit::ops::Poseidon2Config::KOALA_BEAR_D4_W16, p3_koala_bear::default_koalabear_poseidon2_16);
-mmcs_universe!(bb4, baby_bear_params, p3_poseidon2_circuit_air::BabyBearD4Width16, p3_circuit::ops::Poseidon2Config::BABY_BEAR_D4_W16, p3_baby_bear::default_babybear_poseidon2_16);
+mmcs_universe!(kb4, p2, koala_bear_params, p3_poseidon2_circuit_air::KoalaBearD4Width16, p3_circuit::ops::Poseidon2Config::KOALA_BEAR_D4_W16, p3_koala_bear::default_koalabear_poseidon2_16);
+mmcs_universe!(kb4p1, p1, koala_bear_params, p3_circuit::ops::poseidon1_perm::KoalaBearD4Width16, p3_circuit::ops::Poseidon1Config::KOALA_BEAR_D4_W16, p3_koala_bear::default_koalabear_poseidon1_16);
+mmcs_universe!(bb4, p2, baby_bear_params, p3_poseidon2_circuit_air::BabyBearD4Width16, p3_circuit::ops::Poseidon2Config::BABY_BEAR_D4_W16, p3_baby_bear::default_babybear_poseidon2_16);
 
 /// Arity-4 MMCS (width-32 Poseidon2, 4-to-1 compression) over KoalaBear: native quaternary
 /// `MerkleTreeMmcs<_, _, _, _, 4, 8>` versus `verify_batch_circuit_arity4`. Mixed heights put
@@ -653,6 +675,7 @@ pub mod kb4salt {
 fn run_case(shape: &MmcsShape, f: &MFault) -> Result<CaseOut, String> {
     match observe(|| match shape.universe.as_str() {
         "U-BB4" => bb4::run_case(shape, f),
+        "U-KB4-P1" => kb4p1::run_case(shape, f),
         "U-KB4-A4" => kb4a4::run_case(shape, f),
         "U-KB4-SALT" => kb4salt::run_case(shape, f),
         _ => kb4::run_case(shape, f),
@@ -664,6 +687,7 @@ fn run_case(shape: &MmcsShape, f: &MFault) -> Result<CaseOut, String> {
 fn fault_space(shape: &MmcsShape, index: usize) -> (usize, usize, usize, usize) {
     match shape.universe.as_str() {
         "U-BB4" => bb4::fault_space(shape, index),
+        "U-KB4-P1" => kb4p1::fault_space(shape, index),
         "U-KB4-A4" => kb4a4::fault_space(shape, index),
         "U-KB4-SALT" => {
             let x = kb4salt::fault_space(shape, index);
@@ -701,7 +725,7 @@ fn key_of(f: &MFault, o: &CaseOut) -> String {
 pub fn one_run(ctx: &Ctx, idx: u64, out: &mut RunOut) {
     let mut rng = Rng::new(ctx.seed, "C08", idx);
     foldhash::sim::set_seed(mix(ctx.seed, idx));
-    let uni = ["U-KB4", "U-BB4", "U-KB4-A4", "U-KB4-SALT"][(idx % 4) as usize];
+    let uni = ["U-KB4", "U-BB4", "U-KB4-A4", "U-KB4-SALT", "U-KB4-P1"][(idx % 5) as usize];
     let shape = draw_shape(&mut rng, uni, ctx.tier);
     let max_h = shape.dims.iter().map(|d| d.0).max().unwrap();
     if out.samples.is_empty() {
